@@ -8,3 +8,4 @@ CONSTANTS
   CheckIndex = FALSE
 CHECK_DEADLOCK FALSE
 ALIAS TAlias
+VIEW TView
